@@ -29,7 +29,7 @@ const mib = 1 << 20
 
 func Main() {
 	mc.Main("C25", "fault_enumeration",
-		"complete product of method (PUT, POST multipart) x inline limit (0, 512) x body size (0,1,511,512,513, 1MiB-1, 1MiB, 1MiB+1, 2MiB, 2MiB+1 at chunk size 1 MiB) for creates and overwrites; ?op=append of every size onto files created as inline / one chunk / several chunks, and a second append on top; every failure offset of the body from {0, 1, middle, chunk boundary -1/0/+1, last byte} x target (new file, overwrite, append); distinct = (operation, method, limit, size class, storage shape, status class, outcome)",
+		"complete product of method (PUT, POST multipart; with Content-Length and, for sizes around the chunk size, without it, in-process and over loopback TCP) x inline limit (0, 512) x body size (0,1,511,512,513, 1MiB-1, 1MiB, 1MiB+1, 2MiB, 2MiB+1 at chunk size 1 MiB) for creates and overwrites; ?op=append of every size onto files created as inline / one chunk / several chunks, and a second append on top; every failure offset of the body from {0, 1, middle, chunk boundary -1/0/+1, last byte} x target (new file, overwrite, append); distinct = (operation, method, limit, size class, storage shape, status class, outcome)",
 		run)
 }
 
@@ -47,6 +47,12 @@ type Case struct {
 	Fail     int    `json:"fail"`      // the body's reader errors after this many bytes (-1 = never)
 	Ext      string `json:"ext"`       // file name extension
 	DirPost  bool   `json:"dir_post"`  // POST to the directory URL (name from the multipart file name)
+	// Unsized: the request carries no Content-Length (Transfer-Encoding: chunked, as curl -T -,
+	// a streaming Go client or the S3 gateway's proxy send it); the body is a plain io.Reader.
+	Unsized bool `json:"unsized,omitempty"`
+	// TCP: the request goes over loopback TCP to the filer's port (net/http then really
+	// uses chunked encoding for an unsized body) instead of ServeHTTP.
+	TCP bool `json:"tcp,omitempty"`
 }
 
 func sizeClass(n int) string {
@@ -152,6 +158,22 @@ func cases(r *mc.Run) []Case {
 			}
 		}
 	}
+	// requests without Content-Length: PUT creates, overwrites and appends around the chunk size
+	for _, lim := range limits {
+		for _, sz := range []int{513, mib - 1, mib, mib + 1, 2 * mib, 2*mib + 1} {
+			out = append(out, Case{Limit: lim, Method: "PUT", Op: "create", Base: -1, Mid: -1, Size: sz, Fail: -1, Ext: ".bin", Unsized: true})
+			out = append(out, Case{Limit: lim, Method: "PUT", Op: "append", Base: 600, BaseMeth: "PUT", Mid: -1, Size: sz, Fail: -1, Ext: ".bin", Unsized: true})
+			if !r.Quick() {
+				out = append(out, Case{Limit: lim, Method: "PUT", Op: "overwrite", Base: mib + 1, BaseMeth: "PUT", Mid: -1, Size: sz, Fail: -1, Ext: ".bin", Unsized: true})
+				out = append(out, Case{Limit: lim, Method: "POST", Op: "create", Base: -1, Mid: -1, Size: sz, Fail: -1, Ext: ".bin", Unsized: true})
+			}
+		}
+	}
+	// the same over real TCP (chunked transfer encoding on the wire)
+	for _, sz := range []int{mib - 1, 2*mib + 1} {
+		out = append(out, Case{Limit: 0, Method: "PUT", Op: "create", Base: -1, Mid: -1, Size: sz, Fail: -1, Ext: ".bin", Unsized: true, TCP: true})
+		out = append(out, Case{Limit: 0, Method: "PUT", Op: "append", Base: 600, BaseMeth: "PUT", Mid: -1, Size: sz, Fail: -1, Ext: ".bin", Unsized: true, TCP: true})
+	}
 	// failing bodies
 	for _, lim := range limits {
 		for _, m := range meths {
@@ -254,6 +276,15 @@ func (f *failingReader) Read(p []byte) (int, error) {
 
 // request sends one write through the real handler.  fail counts bytes of the file content.
 func (e *env) request(lim int, method, url, name string, data []byte, fail int) (int, string) {
+	return e.requestX(lim, method, url, name, data, fail, false, false)
+}
+
+// plainReader hides the concrete type so that net/http cannot learn the length.
+type plainReader struct{ r io.Reader }
+
+func (p plainReader) Read(b []byte) (int, error) { return p.r.Read(b) }
+
+func (e *env) requestX(lim int, method, url, name string, data []byte, fail int, unsized, tcp bool) (int, string) {
 	f := e.filers[lim]
 	var body []byte
 	ctype := "application/octet-stream"
@@ -276,10 +307,33 @@ func (e *env) request(lim int, method, url, name string, data []byte, fail int) 
 	} else {
 		body = data
 	}
+	if tcp {
+		req, err := http.NewRequest(method, f.Url(url), plainReader{&failingReader{data: body, fail: failAt}})
+		if err != nil {
+			mc.Fatal("request: %v", err)
+		}
+		if !unsized {
+			req.ContentLength = int64(len(body))
+		}
+		req.Header.Set("Content-Type", ctype)
+		resp, err := http.DefaultClient.Do(req)
+		if err != nil {
+			return 0, "transport error: " + err.Error()
+		}
+		b, _ := io.ReadAll(resp.Body)
+		resp.Body.Close()
+		return resp.StatusCode, strings.TrimSpace(string(b))
+	}
 	req := httptest.NewRequest(method, url, nil)
-	req.Body = io.NopCloser(&failingReader{data: body, fail: failAt})
-	req.ContentLength = int64(len(body))
-	req.Header.Set("Content-Length", fmt.Sprint(len(body)))
+	req.Body = io.NopCloser(plainReader{&failingReader{data: body, fail: failAt}})
+	if unsized {
+		req.ContentLength = -1
+		req.TransferEncoding = []string{"chunked"}
+		req.Header.Del("Content-Length")
+	} else {
+		req.ContentLength = int64(len(body))
+		req.Header.Set("Content-Length", fmt.Sprint(len(body)))
+	}
 	req.Header.Set("Content-Type", ctype)
 	rec := httptest.NewRecorder()
 	f.Handler().ServeHTTP(rec, req)
@@ -408,13 +462,20 @@ func (e *env) one(c Case) (class, vclass, msg string) {
 	if c.Op == "append" || c.Op == "append2" {
 		target += "?op=append"
 	}
-	code, body := e.request(c.Limit, c.Method, target, name, data, c.Fail)
+	code, body := e.requestX(c.Limit, c.Method, target, name, data, c.Fail, c.Unsized, c.TCP)
 	got, shape, fsize, err := e.stored(c.Limit, dir, name)
 	shapeC := shape
 	if strings.HasPrefix(shape, "chunks:") && shape != "chunks:1" {
 		shapeC = "chunks:n"
 	}
-	class = fmt.Sprintf("%s|%s|limit=%d|base=%s|size=%s|%s|status=%d|stored=%s", c.Op, c.Method, c.Limit, baseShape, sizeClass(c.Size), failClass(c), code, shapeC)
+	how := ""
+	if c.Unsized {
+		how = "|unsized"
+	}
+	if c.TCP {
+		how += "|tcp"
+	}
+	class = fmt.Sprintf("%s|%s%s|limit=%d|base=%s|size=%s|%s|status=%d|stored=%s", c.Op, c.Method, how, c.Limit, baseShape, sizeClass(c.Size), failClass(c), code, shapeC)
 	if err != nil {
 		return class, "stored-entry-unreadable:" + c.Op + ":" + c.Method, fmt.Sprintf("after %s %s (%d bytes, status %d): %v", c.Method, target, c.Size, code, err)
 	}
@@ -449,6 +510,9 @@ func (e *env) one(c Case) (class, vclass, msg string) {
 		sym := "stored-content-differs"
 		if c.Op == "append" || c.Op == "append2" {
 			sym = "append-misplaced"
+		}
+		if c.Unsized {
+			sym += "-without-content-length"
 		}
 		return class, fmt.Sprintf("%s:%s:%s:base=%s:size=%s", sym, c.Method, c.Op, baseShape, sizeClass(c.Size)),
 			fmt.Sprintf("%s %s stored %d bytes (shape %s), expected %d; first difference at offset %d", c.Method, target, len(got), shape, len(want), d)
